@@ -138,6 +138,22 @@ func VerifC10Unless() {
 	}
 	o3, e3 := vRender("{% unless c %}U{% endunless %}", b)
 	nd.Assert(e3 == nil && (o3 == "U") == !truthy, "unless-negates")
+	// the same value reached by lookup — as a map entry, an array element, behind a Drop, behind a Drop
+	// that yields a pointer to it or another Drop — is as true as the value itself
+	fl, tr := false, true
+	var np *bool
+	extra := []struct {
+		v any
+		t bool
+	}{{v, truthy}, {c18Drop{v}, truthy}, {c18Drop{c18Drop{v}}, truthy}, {c18Drop{&fl}, false}, {c18Drop{&tr}, true}, {c18Drop{np}, false}, {&fl, false}}[nd.Choice(7)]
+	nb := Bindings{"o": map[string]any{"d": extra.v}, "l": []any{extra.v}}
+	o4, e4 := vRender("{% if o.d %}A{% else %}B{% endif %}{% unless l[0] %}B{% else %}A{% endunless %}{% if l.first and true %}A{% else %}B{% endif %}{% case o.d %}{% when false %}f{% when nil %}n{% else %}e{% endcase %}", nb)
+	nd.Assert(e4 == nil, "nested-condition-no-error")
+	if extra.t {
+		nd.Assert(o4[:3] == "AAA", "nested-value-as-true-as-the-value")
+	} else {
+		nd.Assert(o4[:3] == "BBB", "nested-value-as-false-as-the-value")
+	}
 	nd.Reach("C10.unless")
 }
 
